@@ -1660,6 +1660,10 @@ def add_clone_hops(js, rng):
             j.params["hop"] = min([t0] + [len(s) for s in j.streams]); n += 1
         elif isinstance(j, Corr) and not any(o[0] in "KW" for o in j.ops):
             j.ops = core.hop_ops(j.ops, t0); n += 1
+        elif isinstance(j, NoPanic) and not any(o[0] in "KW" for o in j.ops):
+            # "any sequence of update() and last() calls" — on a clone as well (wave-6 seed C15f: a hand-written Clone that left a
+            # scratch buffer empty, so the CLONE panicked once its window filled)
+            j.ops = core.hop_ops(j.ops, t0); n += 1
     return n
 
 
